@@ -85,6 +85,7 @@ def gen(rng, n):
         if v != '/' and not td_opt and rng.random() < 0.08:
             # another file system mounted exactly ON a candidate trash directory: it is then not on the file's volume
             cands_mp = ([lay.top2(v)] if lay.top[v][1] != 'file' else []) + ([lay.top1(v)] if lay.top[v][0] == 'sticky' else [])
+            cands_mp = [c for c in cands_mp if not any(nd[0] == 'l' and nd[1] == c for nd in nodes)]      # (not where a link was just put)
             if cands_mp:
                 mp = rng.choice(cands_mp)
                 nodes.append(['d', mp, 0o700])
